@@ -36,7 +36,7 @@ ASSUMPTIONS = ['visibility read off the observation: a view cell is visible iff 
 EXHAUSTIVE_NOTE = 'all opacity patterns (agent cell transparent) of 3x3 and 4x3 views with every single-cell flip, x 2 functions (thorough: 3x5 too)'
 REQUIRED = {'quick': {'ni.pairs': 20000, 'chain.checked': 5000, 'monotone.pairs': 3000, 'patterns': 2000,
                       'stochastic.checked': 1000, 'stochastic.hidden_by_chance': 50, 'agent_cell.checked': 5000,
-                      'ni.outside_view': 500, 'ni.hidden_in_view': 5000, 'history_states.compared': 200, 'views.large': 4}}
+                      'ni.outside_view': 500, 'ni.hidden_in_view': 5000, 'history_states.compared': 200, 'views.large': 4, 'door_pairs.observations': 500}}
 OCCLUDING = ['partially_occluded', 'raytracing']
 N8 = [(-1, -1), (-1, 0), (-1, 1), (0, -1), (0, 1), (1, -1), (1, 0), (1, 1)]
 
@@ -265,6 +265,52 @@ def stochastic(ctx, state, area, fns, seeds, rng):
                     ctx.hit('stochastic.hidden_by_chance')
 
 
+def door_status_pairs(ctx, fns, n):
+    """two worlds identical except for the status of one door, observed one right after the other (open first, then
+    shut, then open again): each observation must satisfy the chain rule on its own, and shutting the door can only hide
+    cells (monotonicity between the two) - whatever the library remembers from the previous observation"""
+    for k in range(n):
+        rng = gen.rng_for('C06doors', ctx.seed, ctx.shard, k)
+        h, w = rng.randint(3, 7), rng.randint(3, 7)
+        state, _ = gen.rand_state(rng, [Floor, Wall, Door], [Color.NONE, Color.RED], shape=(h, w), p_floor=0.7)
+        state.agent.orientation = Orientation.F
+        state.agent.position = Position(h - 1, rng.randrange(w))
+        ay, ax = h - 1, state.agent.position.x
+        state.grid[ay, ax] = Floor()
+        dy = rng.randint(1, min(3, h - 1))
+        door_cell = (ay - dy, min(w - 1, max(0, ax + rng.randint(-1, 1))))
+        area = Area((-(h - 1), 0), (-ax, w - 1 - ax))
+        variants = {}
+        for st in (Door.Status.OPEN, Door.Status.CLOSED):
+            v = obsgen.rebuilt(state)
+            v.grid[door_cell[0], door_cell[1]] = Door(st, Color.RED)
+            variants[st] = v
+        for name in OCCLUDING:
+            fn = fns[(name, area)]
+            masks = []
+            for st in (Door.Status.OPEN, Door.Status.CLOSED, Door.Status.OPEN):
+                ok, obs = call_real(fn, variants[st], rng=None)
+                ctx.ev()
+                ctx.hit('door_pairs.observations')
+                if not ok:
+                    break
+                good, why = chain_ok(obs)
+                if not good:
+                    ctx.violation('occlusion', f'{name}.chain_broken',
+                                  f'{name}: world with the door at {door_cell} {st.name}, observed right after the same world with the '
+                                  f'door in the other status: {why[0]} at view cell {why[1]}', 'occ_case',
+                                  {'state': enc.state_to_json(variants[st]), 'area': obsgen.area_json(area), 'fn': name})
+                    break
+                masks.append(visible_mask(obs))
+            if len(masks) == 3:
+                lost = [(i, j) for i in range(len(masks[0])) for j in range(len(masks[0][0])) if masks[1][i][j] and not masks[0][i][j]]
+                if lost or masks[0] != masks[2]:
+                    ctx.violation('occlusion', f'{name}.not_monotone',
+                                  f'{name}: opening the door at {door_cell} hides view cells {lost[:4]} / the open-door view changed '
+                                  f'between two observations ({masks[0] != masks[2]})', 'occ_case',
+                                  {'state': enc.state_to_json(variants[Door.Status.OPEN]), 'area': obsgen.area_json(area), 'fn': name})
+
+
 def large_views(ctx, fns):
     """views with hundreds of rays through the agent's cell (15x15: 256, 7x31 / 31x7: 256, 17x17: 324)"""
     for i, (ys, xs) in enumerate(obsgen.LARGE_AREAS):
@@ -292,6 +338,7 @@ def run(ctx):
         shapes = [(3, 3, 0), (4, 3, 0), (3, 5, 0 if ctx.thorough else 1200)]
         patterns(ctx, shapes, fns)
         large_views(ctx, fns)
+        door_status_pairs(ctx, fns, ctx.pick(150, 2500))
         for k in range(ctx.pick(250, 12000)):
             if ctx.out_of_time(0.9):
                 ctx.add('random_cases_skipped_for_time')
